@@ -61,6 +61,7 @@ type Gen struct {
 	readSeen  map[string]bool
 	named     map[Sort][]namedTerm
 	namedSeen map[string]bool
+	verWM     map[string]string // heap version -> allocation watermark when it was created
 	curOrigin string            // "" = program; otherwise the goal being evaluated
 	originCtr int
 	privAsms  map[string][]string // origin -> assumptions private to that goal
@@ -441,7 +442,71 @@ func (g *Gen) heapGet(s *State, name string, srt Sort) string {
 
 func (g *Gen) heapSet(s *State, name string, srt Sort, term string) {
 	g.heapSort[name] = srt
-	s.heaps[name] = g.define("h", srt, term)
+	v := g.define("h", srt, term)
+	s.heaps[name] = v
+	if name != allocHeap {
+		if g.verWM == nil {
+			g.verWM = map[string]string{}
+		}
+		// every reference stored in this version exists now
+		if wm, ok := s.heaps[allocHeap]; ok {
+			g.verWM[v] = wm
+		} else {
+			g.verWM[v] = g.heapGet(s, allocHeap, allocSort)
+		}
+	}
+}
+
+// allocatedIn: references read from heap version ver existed when that version was created
+func (g *Gen) allocatedIn(st *State, ver string, ref string) string {
+	wm, ok := g.verWM[ver]
+	if !ok {
+		if i := strings.LastIndex(ver, "@e"); i >= 0 {
+			// an initial heap of some epoch: its contents exist at that epoch's initial watermark
+			wm = sym(fmt.Sprintf("%s@e%s", allocHeap, strings.TrimSuffix(ver[i+2:], "|")))
+			if !g.ufDecl["heap:"+wm] {
+				wm = g.heapGet(st, allocHeap, allocSort)
+			}
+		} else {
+			wm = g.heapGet(st, allocHeap, allocSort)
+		}
+	}
+	return sOr(sEq(ref, bv64(0)), sApp("bvult", objOf(ref), wm))
+}
+
+// refFactsVer: like refFacts but relative to the heap version the value was read from
+func (g *Gen) refFactsVer(st *State, ver string, v *SVal) string {
+	switch v.K {
+	case KPtr, KMap:
+		return g.allocatedIn(st, ver, v.Term)
+	case KSlice:
+		return g.allocatedIn(st, ver, v.Sub[0].Term)
+	case KStruct, KTuple:
+		var xs []string
+		for _, s := range v.Sub {
+			xs = append(xs, g.refFactsVer(st, ver, s))
+		}
+		return sAnd(xs...)
+	}
+	return "true"
+}
+
+// versionOf: the heap version a load through p (type t) reads (first leaf)
+func (g *Gen) versionOf(st *State, p *SVal, t types.Type) string {
+	if isAggregate(t) || p.Prov == nil || p.Prov.Kind == 3 || p.Prov.Kind == -1 {
+		return ""
+	}
+	ls := g.W.leaves(t)
+	if len(ls) == 0 {
+		return ""
+	}
+	switch p.Prov.Kind {
+	case 1:
+		return g.heapGet(st, p.Prov.Fam+"#"+ls[0].Path, arrSort(SBV64, ls[0].Sort))
+	case 2:
+		return g.heapGet(st, p.Prov.Fam, g.elemHeapSort(t))
+	}
+	return ""
 }
 
 // join merges predecessor states under edge conditions.
@@ -531,6 +596,8 @@ func (g *Gen) typeInv(v *SVal) string {
 	case KString:
 		g.usedStr = true
 		return g.lenBound(sApp("strlen", v.Term))
+	case KIface:
+		return sImp(sEq(v.Sub[0].Term, bvLit(big.NewInt(0), 32)), sEq(v.Sub[1].Term, bv64(0)))
 	case KTime:
 		return sAnd(sApp("bvsle", bv64(0), v.Sub[1].Term), sApp("bvslt", v.Sub[1].Term, bv64(1000000000)),
 			sApp("bvslt", bv64(-(1 << 40)), v.Sub[0].Term), sApp("bvslt", v.Sub[0].Term, bv64(1<<40)))
